@@ -117,13 +117,16 @@ def run' (c : Case) : Verdict := Id.run do
         | some e => (b.1, b.2.1, e.2)
         | none => (b.1, b.2.1, #[]) }
   -- handle numbering of the model: k-th factor request gets handle k
-  let factorOrder : List Nat := (ops.filter (·.kind == "factor")).map (·.k)
-  let hOf (k : Nat) : Nat := (factorOrder.idxOf k)
+  -- (a matrix may be factored again after its handle was freed: the handle in force at operation t is the one of the
+  -- latest factor request for that matrix at or before t)
+  let factorOps : List OpRec := ops.filter (·.kind == "factor")
+  let hAt (k t : Nat) : Nat :=
+    ((List.range factorOps.length).filter fun i => (factorOps[i]!).k == k && (factorOps[i]!).t ≤ t).getLastD 0
   let real := ops.filter (·.kind != "skip")
   let mops : List (Op Nat BT) := real.map fun o =>
     if o.kind == "factor" then Op.factor (fmat c o.k)
-    else if o.kind == "solve" then Op.solve (hOf o.k) (o.nrhs, o.ldb, c.raw s!"Bin{o.t}")
-    else Op.free (hOf o.k)
+    else if o.kind == "solve" then Op.solve (hAt o.k o.t) (o.nrhs, o.ldb, c.raw s!"Bin{o.t}")
+    else Op.free (hAt o.k o.t)
   -- step by step, to compare the ledger after every operation
   let mut st : St Nat := init
   for (o, mop) in real.zip mops do
@@ -132,7 +135,7 @@ def run' (c : Case) : Verdict := Id.run do
     st := st'
     match out with
     | .factored h info A' =>
-      if h ≠ hOf o.k then return { corr := some s!"op {t}: model handle {h} vs sequence number {hOf o.k}", tags := tags }
+      if h ≠ hAt o.k o.t then return { corr := some s!"op {t}: model handle {h} vs sequence number {hAt o.k o.t}", tags := tags }
       if info ≠ c.pInt s!"info{t}" 99 then return { corr := some s!"op {t} factor: bridge info {c.p s!"info{t}"} but gssv reports {info} for the same matrix", tags := tags }
       if A'.colptr ≠ c.int s!"cpA{t}" ∨ A'.rowind ≠ c.int s!"riA{t}" then return { corr := some s!"op {t} factor: arrays differ from the model's", tags := tags }
     | .solved b =>
